@@ -561,6 +561,9 @@ class HistogramND(HistogramBase):
         frequencies, errors2, missing = calculate_nd_frequencies(
             data=data, binnings=binnings, weights=weights, dtype=dtype
         )
+        if not kwargs.get("keep_missed", True):
+            # Tracking of missed values is off: what fell outside is not recorded (as in fill / fill_n)
+            missing = 0
         return cls(
             binnings=binnings,
             frequencies=frequencies,
